@@ -14,7 +14,8 @@ RULE = ("pure part: path templates from the corpus, from a grammar of the AIP cl
         "non-trivial when the template has a named segment. Implicit part: structured http path templates (0-3 variables, dotted and "
         "reserved names, sub-patterns) and noisy strings. End to end: generated APIs (explicit rules of 1-4 parameters with shared "
         "keys, nested and reserved fields, no template / class templates; implicit rules incl. custom http patterns; no rule; paginated "
-        "methods listed over three pages with the header checked on every request; one fixed API "
+        "methods listed over three pages with the header checked on every request; sequences of two and three calls on one client "
+        "sharing one caller-owned metadata list / tuple / the default, with different requests per call; one fixed API "
         "through the alternative Ads template tree, sync gRPC only), each method called through the "
         "sync gRPC, asyncio gRPC and REST clients against loopback servers with 4-6 request valuations; one case = one "
         "(method, request, transport) call.")
@@ -531,7 +532,25 @@ def pager_ok(fn):
     return None, {}
 
 
-def run_e2e(ctx, n_apis, nreq, reserved, tag="e2e", fixed=None):
+SEQ_MD = [["x-custom", "1"]]
+
+
+def seq_requests(r, m):
+    """Three different requests for a call sequence: a contributing one, an empty / non-matching one, another contributing one."""
+    given = [dict(x) for x in m.get("requests", [])]
+    gen_ = [v for v in gen_requests(r, m, 3)[1 + len(given):] if not any("\n" in x for x in v.values())]
+    first = given[0] if given else (gen_[0] if gen_ else {})
+    if m["kind"] == "explicit":
+        miss = {f: "no-such/value" for f, t in m["params"]} if r.random() < 0.5 else {}
+    else:
+        miss = {v: "" for v in m.get("vars", [])}
+    third = given[1] if len(given) > 1 else gen_[-1] if gen_ else dict(first)
+    return [first, miss, third]
+
+
+def run_e2e(ctx, n_apis, nreq, reserved, tag="e2e", fixed=None, sequences=0):
+    """sequences: for that many routed methods per library, also drive call SEQUENCES on one client with one caller-owned
+    metadata object (list / tuple / default)."""
     jobs = []
     for i in range(n_apis):
         r = env.rng("C06-e2e", i)
@@ -627,10 +646,75 @@ def run_e2e(ctx, n_apis, nreq, reserved, tag="e2e", fixed=None):
             out = gen.impl("drive", {"root": d, "package": PKG, "calls": calls}, timeout=900)
         except Exception as e:  # noqa
             out = e
+        seqs, seq_meta, seq_out = [], [], None
+        routed = [m for m in methods if m["kind"] in ("explicit", "implicit") and not m.get("cs") and not m.get("paged")
+                  and (m["params"] or m["kind"] == "implicit")]
+        routed.sort(key=lambda m: (not m.get("requests"), m["name"]))
+        for mi, m in enumerate(routed[:sequences]):
+            r = env.rng(f"C06-seq-{i}", mi)
+            reqs = seq_requests(r, m)[: (2 if mi % 2 else 3)]
+            b64s = []
+            for vals in reqs:
+                msg = D.new(req_fqn)
+                for p, v in vals.items():
+                    set_path(msg, p, v)
+                b64s.append(D.b64(msg))
+            for tr in (("grpc", "grpc_asyncio") if m["http"][0] == "custom" else ("grpc", "grpc_asyncio", "rest")):
+                for kind in ("list", "tuple", "default"):
+                    seqs.append({"service_module": "router", "client": "RouterAsyncClient" if tr == "grpc_asyncio" else "RouterClient",
+                                 "transport": tr, "method": snake(m["name"]), "cls": PKG + ".types:RouteRequest", "requests": b64s,
+                                 "md_kind": kind, "md": SEQ_MD})
+                    seq_meta.append((m, reqs, tr, kind))
+        if seqs and not isinstance(out, Exception):
+            try:
+                seq_out = gen.impl("routing_seq", {"root": d, "package": PKG, "sequences": seqs}, timeout=600)
+            except Exception as e:  # noqa
+                seq_out = e
         gen.rm(d)
-        return out, meta
+        return (out, seq_out, seq_meta), meta
 
-    for (i, methods, req, req_fqn, res, case0), (out, meta) in zip(drive_jobs, gen.pmap(drive_one, drive_jobs, workers=8)):
+    for (i, methods, req, req_fqn, res, case0), ((out, seq_out, seq_meta), meta) in zip(drive_jobs, gen.pmap(drive_one, drive_jobs, workers=8)):
+        # ---- call sequences sharing one metadata object: every call carries exactly its own header, the object is left alone ----
+        if isinstance(seq_out, Exception):
+            ctx.violation(f"e2e #{i}: call sequences cannot be driven: {str(seq_out)[-300:]}", case0)
+        later = []      # side effects on the caller's object: reported after what they do to the wire
+        for sq, (m, reqs, tr, kind) in zip(seq_out or [], seq_meta) if not isinstance(seq_out, Exception) else []:
+            scase = {"e2e_index": i, "method": m, "sequence": reqs, "transport": tr, "metadata_kind": kind, "metadata": SEQ_MD,
+                     "request_b64": case0["request_b64"], "methods": methods}
+            if sq.get("error") or len(sq["calls"]) != len(reqs):
+                ctx.violation(f"{m['name']} via {tr}: a sequence of {len(reqs)} calls could not be made: {sq.get('error')}", scase)
+                continue
+            mutated = False
+            for k, (c, vals) in enumerate(zip(sq["calls"], reqs)):
+                ctx.case({"e2e": i, "method": m["name"], "sequence": reqs, "call": k, "transport": tr, "md": kind}, nontrivial=True,
+                         feature=[f"e2e:sequence:{kind}", f"e2e:sequence-call:{tr}"])
+                if c["wire"] is None:
+                    if tr != "rest":
+                        ctx.violation(f"{m['name']} via {tr}: call {k + 1} of a sequence raised {c.get('error')}", scase)
+                    continue
+                want = expected_for(m, vals)
+                want_l = [] if want is None else [want]
+                got = [v for kk, v in c["wire"] if kk == ROUTING_KEY]
+                custom = [v for kk, v in c["wire"] if kk == "x-custom"]
+                where = (f"{m['name']} via {tr}, call {k + 1} of {len(reqs)} on one client with "
+                         f"{'the default metadata' if kind == 'default' else 'the same ' + kind + ' ' + str(SEQ_MD) + ' passed as metadata'}")
+                if got != want_l:
+                    ctx.violation(f"{where}: the server saw {ROUTING_KEY}={got}, the property requires {want_l} for request {vals} "
+                                  f"(requests of the sequence: {reqs})", scase)
+                    break
+                if kind != "default" and custom != ["1"]:
+                    ctx.violation(f"{where}: the caller's own entry x-custom arrived as {custom}", scase)
+                    break
+                if kind != "default" and (c["md_after"] != SEQ_MD or c["md_type"] != kind or not c["same_object"]) and not mutated:
+                    mutated = True      # reported once; the following calls show what it does to the wire
+                    later.append((f"{where}: the caller's metadata object was changed to {c['md_type']} {c['md_after']}", scase))
+                if tr == "grpc" and kind == "list":
+                    attr_vals = [(".".join(cc + "_" if cc in reserved else cc for cc in p.split(".")), v) for p, v in vals.items()]
+                    o = "None" if not got else f"(Some {coq.s(got[0])})"
+                    checks.append((f"e2e#{i} {m['name']} sequence call {k + 1} {vals!r}: header = model (no memory between calls)",
+                                   f"res_eqb (option_eqb String.eqb) (header_of {method_term(m)} (req_of {coq.pairs(attr_vals)})) (Ok {o})"))
+        for what, scase in later[:2]:
+            ctx.violation(what, scase)
         if isinstance(out, Exception):
             ctx.violation(f"e2e #{i}: the emitted library cannot be imported / driven: {str(out)[-400:]}", case0)
             continue
@@ -887,7 +971,7 @@ def run(ctx):
     # corpus first: the in-code API and corpus/C06/*.json (former findings, fixed upstream)
     c_e2e, c_pure, c_ads = load_corpus()
     fixed = corpus_methods() + c_e2e
-    _, d = run_e2e(ctx, len(fixed), 4, reserved, tag="corpus", fixed=fixed)
+    _, d = run_e2e(ctx, len(fixed), ctx.n(2, 4), reserved, tag="corpus", fixed=fixed, sequences=ctx.n(2, 4))
     deferred += d
     templates = list(c_pure) + list(G.CORPUS_TEMPLATES)
     for i in range(ctx.n(70, 900)):
@@ -895,7 +979,7 @@ def run(ctx):
         templates.append(G.gen_class_template(r) if r.random() < 0.65 else G.gen_offclass_template(r))
     _, d = run_pure(ctx, templates, ctx.n(3, 5), extra=c_pure)
     deferred += d
-    _, d = run_e2e(ctx, ctx.n(5, 60), ctx.n(3, 5), reserved)
+    _, d = run_e2e(ctx, ctx.n(4, 60), ctx.n(3, 5), reserved, sequences=ctx.n(1, 3))
     deferred += d
     deferred += run_ads(ctx, reserved)
     for k, ms in enumerate(c_ads):           # corpus/C06: former finding routing.ads_ignores_explicit (fixed by eec5aba)
@@ -919,7 +1003,7 @@ def replay(ctx, rep):
     elif "methods" in c and c.get("ads"):
         deferred = run_ads(ctx, reserved, methods=c["methods"], tag="adsreplay")
     elif "methods" in c:
-        _, deferred = run_e2e(ctx, 1, 4, reserved, tag="replay", fixed=[c["methods"]])
+        _, deferred = run_e2e(ctx, 1, 4, reserved, tag="replay", fixed=[c["methods"]], sequences=4)
     elif "uri" in c:
         out = gen.impl("routing", {"https": [c.get("verbs") or {"get": c["uri"]}]})
         print("replay:", json.dumps(out["https"]))
@@ -932,6 +1016,6 @@ def replay(ctx, rep):
 def search(ctx, broken):
     """A correspondence broke without an oracle failure: look harder around it (more templates, more values, more APIs)."""
     reserved = set(c06_t0.reserved_names())
-    templates = [G.gen_class_template(env.rng("C06-search", i)) for i in range(300)]
-    run_pure(ctx, templates, 6, tag="search")
-    run_e2e(ctx, 12, 5, reserved, tag="search")
+    templates = [G.gen_class_template(env.rng("C06-search", i)) for i in range(ctx.n(80, 300))]
+    run_pure(ctx, templates, 5, tag="search")
+    run_e2e(ctx, ctx.n(5, 12), 4, reserved, tag="search", sequences=2)
